@@ -294,12 +294,16 @@ func cmdStoreExec(args []string) error {
 				}
 			case "Q":
 				text := ""
+				cfg := runCfg{chanSize: 1, bulkSize: 1}
 				for _, w := range f[1:] {
 					if strings.HasPrefix(w, "text=") {
 						text, _ = unhx(strings.TrimPrefix(w, "text="))
 					}
+					if strings.HasPrefix(w, "cfg=") {
+						cfg = parseCfg(strings.TrimPrefix(w, "cfg="))
+					}
 				}
-				res, _ := runStatement(store, text, 1, 1)
+				res, _ := runWithCfg(store, text, cfg)
 				ans = res.cls
 				if res.cls == "ok" {
 					ans = res.text
